@@ -123,6 +123,9 @@ def job_blockwise(job):
   return JobResult(job.name, st.as_dict(), cands, inconc, {}, samples=samples)
 
 
+N_QUICK_DAGS = 60
+
+
 def make_jobs(prop, tier):
   fam = P.skeleton_family(tier)
   js = [Job(f'skel:{name}', job_skeleton,
@@ -130,11 +133,12 @@ def make_jobs(prop, tier):
         if not (prop == 'C08' and name in NOT_CONVERTER_NORMAL_FORM)]
   if prop == 'C01':
     js.append(Job('skel:blockwise', job_blockwise, {}))
-  if tier == 'thorough':
-    # seeded family of random DAGs with 2-4 operators (the seed is VERIF_SEED)
-    for name in P.skeleton_family('thorough_dags'):
-      js.append(Job(f'skel:{name}', job_skeleton,
-                    {'prop': prop, 'skeleton': name, 'tier': tier}))
+  # seeded family of random DAGs with 2-5 operators (the seed is VERIF_SEED):
+  # all 1200 in the thorough tier, the first 60 in the quick tier
+  dags = list(P.skeleton_family('thorough_dags'))
+  for name in (dags if tier == 'thorough' else dags[:N_QUICK_DAGS]):
+    js.append(Job(f'skel:{name}', job_skeleton,
+                  {'prop': prop, 'skeleton': name, 'tier': tier}))
   return js
 
 
